@@ -3,6 +3,7 @@ import PgVerif.Proofs.Chart
 import PgVerif.Proofs.LRDet
 import PgVerif.Proofs.LRUnamb
 import PgVerif.Model.Decode
+import PgVerif.Proofs.GLRSound
 /-!
 # C04 — LR parser is sound always (and exact when its table is deterministic)
 
@@ -109,6 +110,36 @@ theorem C04_unambiguous_when_deterministic (g : Grammar) (T : Table) (inp : Inpu
     (hfin : ∀ s, T.n ≤ s → T.cells s = [] ∧ T.finish s = []) (hin : InputOK inp)
     (t1 t2 : Tree) (h1 : IsParseOf g inp t1) (h2 : IsParseOf g inp t2) : t1.shape = t2.shape :=
   unambiguous hv (detOK_of_bool hT hL hfin hin) hin t1 t2 h1 h2
+
+/-- **GLR over a deterministic table returns the parser's tree**: when the table is validated and
+deterministic, every tree of the packed forest the GLR driver model answers with has the shape of the
+tree the LR driver returns (which it does return), and any two trees of that forest have the same
+shape. That the model answers with a forest at all for every sentence is not proved here (the
+comparison of `GLRParser` with `Parser` on deterministic tables decides it on the explored scope). -/
+theorem C04_glr_model_trees_are_the_parser_tree (g : Grammar) (T : Table) (inp : Input)
+    (I : Nat → List LRV.VItem) (F : LRV.FirstData) (hw : T.wf g = true) (hv : LRV.lrComplete g T I F = true)
+    (hT : detTableB T = true) (hL : lexDetB T inp = true)
+    (hfin : ∀ s, T.n ≤ s → T.cells s = [] ∧ T.finish s = []) (hin : InputOK inp)
+    (hidem : ∀ p, inp.skip (inp.skip p) = inp.skip p) (lexDis lexDisG : Bool) (fuelG : Nat) (sF : GLR.GState)
+    (hG : GLR.parseGLR g T inp true lexDisG fuelG = .forest sF)
+    (a : Nat) (ha : a ∈ sF.accepted) (l : Nat) (hl : l ∈ sF.parents a) (t : Tree) (ht : GLR.TreeOf sF l t) :
+    ∃ (fuel : Nat) (t' : Tree) (e p : Nat),
+      parseLR g T inp { consumeInput := true, lexDis := lexDis } fuel = .ok t' e p ∧ t'.shape = t.shape :=
+  C04_parser_tree_is_the_parse_tree g T inp I F hv hT hL hfin hin lexDis t
+    ((GLR.parseGLR_forest_sound hw hidem true lexDisG fuelG sF hG a ha l hl t ht).2 rfl)
+
+theorem C04_glr_model_single_tree (g : Grammar) (T : Table) (inp : Input)
+    (I : Nat → List LRV.VItem) (F : LRV.FirstData) (hw : T.wf g = true) (hv : LRV.lrComplete g T I F = true)
+    (hT : detTableB T = true) (hL : lexDetB T inp = true)
+    (hfin : ∀ s, T.n ≤ s → T.cells s = [] ∧ T.finish s = []) (hin : InputOK inp)
+    (hidem : ∀ p, inp.skip (inp.skip p) = inp.skip p) (lexDisG : Bool) (fuelG : Nat) (sF : GLR.GState)
+    (hG : GLR.parseGLR g T inp true lexDisG fuelG = .forest sF)
+    (a1 : Nat) (ha1 : a1 ∈ sF.accepted) (l1 : Nat) (hl1 : l1 ∈ sF.parents a1) (t1 : Tree) (ht1 : GLR.TreeOf sF l1 t1)
+    (a2 : Nat) (ha2 : a2 ∈ sF.accepted) (l2 : Nat) (hl2 : l2 ∈ sF.parents a2) (t2 : Tree) (ht2 : GLR.TreeOf sF l2 t2) :
+    t1.shape = t2.shape :=
+  C04_unambiguous_when_deterministic g T inp I F hv hT hL hfin hin t1 t2
+    ((GLR.parseGLR_forest_sound hw hidem true lexDisG fuelG sF hG a1 ha1 l1 hl1 t1 ht1).2 rfl)
+    ((GLR.parseGLR_forest_sound hw hidem true lexDisG fuelG sF hG a2 ha2 l2 hl2 t2 ht2).2 rfl)
 
 /-- The same for the tables and inputs the compiled driver decodes from the implementation's dumps:
 the side conditions on the data (`InputOK`, table empty beyond its states) are theorems about the
